@@ -58,6 +58,13 @@ func c09ErrClass(err error) (cls string) {
 	return "other:" + err.Error()
 }
 
+// close operations and the error the OTHER side must see afterwards (once it has nothing left to
+// drain): plain close, a custom error, and the two error values the pipe itself gives a meaning to
+var c09CloseErr = map[string]string{"wc": "eof", "wce": "custom-w", "wcp": "closed", "rc": "closed", "rce": "custom-r", "rco": "eof"}
+
+func c09IsWClose(op string) bool { return op == "wc" || op == "wce" || op == "wcp" }
+func c09IsRClose(op string) bool { return op == "rc" || op == "rce" || op == "rco" }
+
 type c09Scenario struct {
 	Name    string     `json:"name"`
 	Cap     int        `json:"cap"`
@@ -170,6 +177,12 @@ func (run *c09Run) do(thread int, op string) {
 	case op == "rce":
 		e.Err = c09ErrClass(run.r.CloseWithError(errCustomR))
 		finish()
+	case op == "wcp":
+		e.Err = c09ErrClass(run.w.CloseWithError(io.ErrClosedPipe))
+		finish()
+	case op == "rco":
+		e.Err = c09ErrClass(run.r.CloseWithError(io.EOF))
+		finish()
 	default:
 		panic("bad op " + op)
 	}
@@ -209,11 +222,11 @@ func (run *c09Run) judge(complete bool) (kind, what string) {
 				return "empty-read", fmt.Sprintf("Read(%d) returned 0, nil", k)
 			}
 			read = append(read, e.Data...)
-		case e.Op == "rc" || e.Op == "rce":
+		case c09IsRClose(e.Op):
 			if rClosed == nil {
 				rClosed = e
 			}
-		case e.Op == "wc" || e.Op == "wce":
+		case c09IsWClose(e.Op):
 			if wClosed == nil {
 				wClosed = e
 			}
@@ -227,12 +240,12 @@ func (run *c09Run) judge(complete bool) (kind, what string) {
 		return "fifo", fmt.Sprintf("the reader's byte %d is not the byte written at that position (read %d bytes, %d accepted)", i, len(read), len(written))
 	}
 	rerr := "closed"
-	if rClosed != nil && rClosed.Op == "rce" {
-		rerr = "custom-r"
+	if rClosed != nil {
+		rerr = c09CloseErr[rClosed.Op]
 	}
 	werr := "eof"
-	if wClosed != nil && wClosed.Op == "wce" {
-		werr = "custom-w"
+	if wClosed != nil {
+		werr = c09CloseErr[wClosed.Op]
 	}
 	for i := range run.events {
 		e := &run.events[i]
@@ -397,6 +410,8 @@ func c09Scenarios(capn int, file bool) []c09Scenario {
 		mk("w(cap),w1 | r(cap),rclose", []string{"W" + c(0), "W1"}, []string{"R" + c(0), "rc"}),
 		mk("w(2cap+1) | r(cap),rclose-with-error", []string{"W" + fmt.Sprint(2*capn+1)}, []string{"R" + c(0), "rce"}),
 		mk("close-with-error | r10,r10", []string{"wce"}, []string{"R10", "R10"}),
+		mk("w3,close-with-ErrClosedPipe | r2,r2,r2", []string{"W3", "wcp"}, []string{"R2", "R2", "R2"}),
+		mk("w(cap+1) | r1,rclose-with-EOF", []string{"W" + c(1)}, []string{"R1", "rco"}),
 		mk("w(cap+1) | read-until-eof | closer: wclose", []string{"W" + c(1)}, []string{"R*" + c(0)}, []string{"wc"}),
 		mk("w0,w1,close | r0,r1,r0,r1", []string{"W0", "W1", "wc"}, []string{"R0", "R1", "R0", "R1"}),
 		mk("w3,available,w(cap-3),w1 | buffered,r5,buffered,read-until-eof | closer: wclose", []string{"W3", "A", "W" + c(-3), "W1"}, []string{"B", "R5", "B", "R*" + c(0)}, []string{"wc"}),
@@ -593,13 +608,13 @@ func c09SeqWord(capn int, file bool, word []string) string {
 					return fail("Available must report capacity minus queued bytes")
 				}
 			}
-		case op == "wc" || op == "wce":
+		case c09IsWClose(op):
 			if m.werr == "" {
-				m.werr = map[string]string{"wc": "eof", "wce": "custom-w"}[op]
+				m.werr = c09CloseErr[op]
 			}
-		case op == "rc" || op == "rce":
+		case c09IsRClose(op):
 			if m.rerr == "" {
-				m.rerr = map[string]string{"rc": "closed", "rce": "custom-r"}[op]
+				m.rerr = c09CloseErr[op]
 			}
 			m.q = nil
 		}
@@ -700,8 +715,10 @@ func c09Seq(t *testing.T) {
 			if depth < ml {
 				try("wc", buffered, rerr, true)
 				try("wce", buffered, rerr, true)
+				try("wcp", buffered, rerr, true)
 				try("rc", 0, true, werr)
 				try("rce", 0, true, werr)
+				try("rco", 0, true, werr)
 			}
 		}
 		rec(0, false, false, 0, 0)
